@@ -108,6 +108,11 @@ def o_edit_nonascii(template: str, pos: int, kind: str, ch: str, choice: int, iv
         _APPROX = False
 
 
+def o_suffix(template: str, tail: str, excl=()) -> bool:
+    """a valid string followed by up to two more notation characters"""
+    return _total(template + tail)
+
+
 def o_valid(template: str, dummy: bool = False, excl=()) -> bool:
     """sanity for the templates themselves: they parse, serialize and are reported valid"""
     a = PP.parse(template)
